@@ -46,7 +46,7 @@ ASSUMPTIONS = [
     "numerals are concrete and range over the listed spellings (equal to NULL in other spellings, near NULL, unrelated): float equality is numpy's C code and is executed, not encoded; the symbolic part is limited to finite choice variables (NULL spelling x probe position x probe spelling x policy x engine) whose case analysis the solver drives - this is the weakest use of the technique among the checks and is stated as such",
     "file: 3 rows x 3 or 4 columns (index, two numeric curves, optionally one text column), concrete layout (layout invariance is C02/C09); near-NULL samples differ from NULL by more than the precision of the default write format (a sample that the format rounds onto NULL is outside the claim)",
 ]
-WITNESS_TARGETS = ["probe-equals-null-in-other-spelling", "probe-in-index-column", "probe-in-text-column", "policy-none", "round-trip-compared", "all-numeric-file-NaN-written-as-NULL"]
+WITNESS_TARGETS = ["probe-equals-null-in-other-spelling", "probe-in-index-column", "probe-in-text-column", "policy-none", "round-trip-compared", "all-numeric-file-NaN-written-as-NULL", "read-with-lower-case-mnemonics"]
 EXCLUSIONS = {}
 ROWS, COLS = 3, 4
 BASE_CELLS = [["10", "1.5", "2.5", "abc"], ["20", "3.5", "4.5", "def"], ["30", "5.5", "6.5", "ghi"]]
@@ -122,7 +122,10 @@ def harness(ns, params):
         spell = fresh_int("probe_spelling", 0, 8)
         pol = fresh_bool("policy_none")
         wt = fresh_bool("with_text_column")
+        mci = fresh_int("mnemonic_case", 0, 2)
         wt_c = bool(wt)
+        mcase = ["upper", "lower", "preserve"][mci.__index__()]
+        core.witness("read-with-lower-case-mnemonics", mcase == "lower")
         if not wt_c:
             core.assume(z.And([z.Not(z.eq_i(pos.e, k)) for k in (3, 7, 11)]))
         cells, (pi, pj), tok, is_eq = cells_for(null, pos.__index__(), spell.__index__(), wt_c)
@@ -130,7 +133,7 @@ def harness(ns, params):
         # symbolic paddings on the probe's line only (the other lines are laid out concretely)
         # (symbolic paddings around the numerals are C02/C09's subject; here they made one path cost 26 s)
         lines = [" " + "  ".join(cells[i]) for i in range(ROWS)]
-        inputs = {"null": null, "engine": engine, "probe_pos": pos, "probe_spelling": spell, "policy_none": pol, "with_text_column": wt, "data_lines": lines}
+        inputs = {"null": null, "engine": engine, "probe_pos": pos, "probe_spelling": spell, "policy_none": pol, "with_text_column": wt, "data_lines": lines, "mnemonic_case": mci}
         core.witness("all-numeric-file-NaN-written-as-NULL", (not wt_c) and is_eq and pj in (1, 2) and policy == "strict")
         cx = core.ctx()
         cx.inputs = inputs
@@ -141,7 +144,7 @@ def harness(ns, params):
         core.witness("policy-none", policy == "none")
         las = ns.las.LASFile()
         try:
-            las.read(SymFile(header(null, wt_c) + lines), engine=engine, null_policy=policy)
+            las.read(SymFile(header(null, wt_c) + lines), engine=engine, null_policy=policy, mnemonic_case=mcase)
         except Exception as e:
             core.oblige("read-does-not-raise", False, info=repr(e)[:200])
             return {"observed": {"raised": type(e).__name__}}
@@ -153,7 +156,7 @@ def harness(ns, params):
             out = OutFile()
             ns.writer.write(las, out, version=2.0)
             las2 = ns.las.LASFile()
-            las2.read(SymFile(out.lines()), engine=engine, null_policy=policy)
+            las2.read(SymFile(out.lines()), engine=engine, null_policy=policy, mnemonic_case=mcase)
             got2 = DF.curves_as_lists(las2)
             core.witness("round-trip-compared")
             nanset = lambda cols: [[(isinstance(v, float) and v != v) for v in c] for c in cols]
@@ -177,7 +180,8 @@ def replay(i):
     policy = "none" if i["policy_none"] else "strict"
     text = "\n".join(header(null, wt) + list(i["data_lines"])) + "\n"
     try:
-        las = lasio.read(text, engine=engine, null_policy=policy)
+        mcase = ["upper", "lower", "preserve"][i.get("mnemonic_case", 0)]
+        las = lasio.read(text, engine=engine, null_policy=policy, mnemonic_case=mcase)
     except Exception as e:
         return {"ok": False, "detail": "read raised %r for %r" % (e, text), "observed": {"raised": type(e).__name__}}
     got = DF.curves_as_lists(las)
@@ -188,7 +192,7 @@ def replay(i):
     try:
         o = io.StringIO()
         las.write(o, version=2.0)
-        las2 = lasio.read(o.getvalue(), engine=engine, null_policy=policy)
+        las2 = lasio.read(o.getvalue(), engine=engine, null_policy=policy, mnemonic_case=mcase)
         got2 = DF.curves_as_lists(las2)
         nanset = lambda cols: [[(isinstance(v, float) and v != v) for v in c] for c in cols]
         if policy == "strict" and nanset(got2) != nanset(got):
